@@ -286,6 +286,26 @@ def gen_spec(rng, *, backend="pandas", kind=None, allow_flavors=True,
     return spec
 
 
+def widen_dtype_less(rng, spec):
+    """C05 only (separate random draws, gen_spec is shared with C15): columns
+    that declare no dtype.  Under a dataframe-level dtype they are the columns
+    whose dtype is only resolved while validating / drawing data; without one
+    they are never type checked."""
+    if spec["backend"] != "pandas" or spec["kind"] == "model":
+        return spec
+    cols = spec["columns"]
+    if spec["kind"] == "frame" and spec.get("dtype"):
+        if rng.random() < 0.65:
+            picked = [c for c in cols if rng.random() < 0.5] or [rng.choice(cols)]
+            for c in picked:
+                c["no_dtype"] = True
+    elif rng.random() < 0.1:
+        c = rng.choice(cols)
+        if c["dtype"] != "dtz":
+            c["no_dtype"] = True
+    return spec
+
+
 def gen_index_level(rng, name, dtype):
     lv = {"name": name, "dtype": dtype, "checks": [], "nullable": False,
           "unique": rng.random() < 0.4, "coerce": rng.random() < 0.2}
@@ -368,7 +388,10 @@ def build_column(col, backend="pandas", name=None):
         return pa.Column(_pl_dtype(col["dtype"]), name=name,
                          **column_kwargs(pa, col, polars=True))
     import pandera as pa
-    return pa.Column(_pd_dtype(col["dtype"]), name=name, **column_kwargs(pa, col))
+    # "no_dtype": the column declares no dtype of its own (data, checks and
+    # probes still follow the dtype tag)
+    return pa.Column(None if col.get("no_dtype") else _pd_dtype(col["dtype"]),
+                     name=name, **column_kwargs(pa, col))
 
 
 def build_index(levels):
@@ -475,7 +498,8 @@ def build(spec) -> Built:
         c = spec["columns"][0]
         kw = column_kwargs(pa, c)
         kw.pop("required"), kw.pop("regex")
-        return Built(spec, pa.SeriesSchema(_pd_dtype(c["dtype"]), name=c["name"],
+        return Built(spec, pa.SeriesSchema(None if c.get("no_dtype") else _pd_dtype(c["dtype"]),
+                                           name=c["name"],
                                            index=build_index(spec.get("index")), **kw))
     cols = {c["name"]: build_column(c) for c in spec["columns"]}
     s = pa.DataFrameSchema(cols, index=build_index(spec.get("index")),
